@@ -475,6 +475,9 @@ func (h *hist) insertDocs(docs []map[string]any) []string {
 		}
 		return nil
 	}
+	if !h.allWellTyped(docs) {
+		h.finding("", fmt.Sprintf("insert accepted a document with a typed field holding a value that is not of the field's type (or an id / _doc key): %s", jsonString(docs[0])))
+	}
 	obs := make([]string, len(docs))
 	gens := h.c.gens()
 	for i, d := range docs {
@@ -945,6 +948,7 @@ type histCfg struct {
 // collections of successive histories live in one store (they are independent SQL tables); a
 // replayed history runs alone on a fresh store
 var collSeq int
+var probeReported bool
 
 func runHistory(r *vk.Run, gp **Eng, seed int64, cfg histCfg) error {
 	if cfg.ownEngine { // the history is expected to wedge the engine
@@ -957,6 +961,15 @@ func runHistory(r *vk.Run, gp **Eng, seed int64, cfg histCfg) error {
 	}
 	g := *gp
 	cfl := probeFlags(g)
+	if !probeReported {
+		probeReported = true
+		if !cfl.strict {
+			r.Finding("C19 probe: a non-integral number ({n:0.5}) is accepted for an INTEGER field: the column holds int64(number) while the payload keeps the number (the repair 964c526 is not in effect)")
+		}
+		if cfl.uf {
+			r.Finding("C19 probe: unique index admits a duplicate after a tombstoned entry under the same value: insert {n:20}, delete it, insert {n:20}, insert {n:20} (the repair c876bb2 is not in effect)")
+		}
+	}
 	rng := rand.New(rand.NewSource(seed))
 	collSeq++
 	resetIDs()
@@ -1022,7 +1035,7 @@ func runHistory(r *vk.Run, gp **Eng, seed int64, cfg histCfg) error {
 		r.Stats["untied/"+cfg.name]++
 		return nil
 	}
-	coq := fmt.Sprintf("(%sCHist %v %v %v %s [%s] [%s] [\n  %s])", idBindings(), cfl.nz, cfl.strict, cfl.uf, hexS(idn0), strings.Join(fields0, "; "), strings.Join(ix0, "; "), strings.Join(h.steps, ";\n  "))
+	coq := fmt.Sprintf("(%sCHist %v %s [%s] [%s] [\n  %s])", idBindings(), cfl.nz, hexS(idn0), strings.Join(fields0, "; "), strings.Join(ix0, "; "), strings.Join(h.steps, ";\n  "))
 	bucket := "hist/" + cfg.name
 	if h.hasUnique() {
 		bucket += "+unique"
